@@ -1,7 +1,14 @@
 //! C13 harness: streaming `ReadAdapter` versus in-memory `SliceReader`.
 //!   c13 corr <seed> <n>       -> lines "<d|r> <chunks> <ops> => <results>"   (real ReadAdapter over a chunk-replaying Read)
 //!   c13 falsify <seed> <n>    -> JSON lines, one per (shrunk) failure against the SliceReader oracle; "evaluations=.. failures=.."
-//!   c13 replay <chunks> <ops> -> adapter and slice results for one explicit case
+//!   c13 replay <chunks> <ops> -> adapter, slice and cursor results for one explicit case
+//!   c13 replay-err <chunks> <errs> <ops> -> one case over a source that returns io::Error at the read() calls listed in <errs>
+//!
+//! Coverage round: `impl ByteReader for std::io::Cursor` is a third party of the equivalence (corr lines "C<p> ..": the real Cursor
+//! over the concatenated chunks positioned at p, p may exceed the length; falsifier: Cursor vs SliceReader with full error values,
+//! also from a non-zero and a beyond-the-end position), and the falsifier drives ReadAdapter over sources whose read() returns
+//! io::Error (kinds UnexpectedEof / Interrupted / Other) at chosen calls.  An io::Error is outside "any byte stream" of the
+//! property: the required behaviour is robustness (no panic, the call reports an error of the documented kind, no byte is lost).
 //!
 //! Case syntax: chunks = comma-separated hex strings ("-" = an empty read), the byte stream is their concatenation;
 //! ops = comma-separated: u8 pk bool u16 u32 u64 u128 usz rs<n> ra<n> rv<n> str<n> many<k>x<n> eor<n> more drain
@@ -233,6 +240,20 @@ fn run_slice(stream: &[u8], ops: &[Op]) -> Vec<Res> {
     out
 }
 
+/// The third reader implementation: std::io::Cursor over `buf`, positioned at `pos` (any u64, also beyond the end).
+fn run_cursor(buf: &[u8], pos: u64, ops: &[Op]) -> Vec<Res> {
+    let mut cu = std::io::Cursor::new(buf);
+    cu.set_position(pos);
+    let mut out = Vec::new();
+    for op in ops {
+        match catch(AssertUnwindSafe(|| apply(&mut cu, op, buf.len()))) {
+            Ok(x) => out.push(x),
+            Err(m) => { out.push(("panic".into(), format!("panic:{}", m))); break; }
+        }
+    }
+    out
+}
+
 fn concat(chunks: &[Vec<u8>]) -> Vec<u8> {
     chunks.iter().flat_map(|c| c.iter().copied()).collect()
 }
@@ -260,6 +281,7 @@ fn check_case(chunks: &[Vec<u8>], ops: &[Op]) -> Option<Mismatch> {
     if maxreq > 256 {
         return Some(Mismatch { idx: 0, op: "-".into(), expected: "reads of at most 256 bytes".into(), actual: format!("{}", maxreq), what: "BufReader capacity assumption broken".into() });
     }
+    if let Some(m) = check_cursor(&stream, ops) { return Some(m); }
     let st = sticky(chunks);
     if st {
         let rs = run_slice(&stream, ops);
@@ -303,6 +325,171 @@ fn check_case(chunks: &[Vec<u8>], ops: &[Op]) -> Option<Mismatch> {
         }
         None
     }
+}
+
+/// Cursor vs SliceReader (both are exact in-memory readers: no allowance at all, full error values compared):
+/// from position 0; from a position inside a longer buffer (SliceReader gets the bytes from there on); from beyond the end
+/// (SliceReader over no bytes).
+fn check_cursor(stream: &[u8], ops: &[Op]) -> Option<Mismatch> {
+    let cmp = |rc: Vec<Res>, rs: Vec<Res>, how: &str| -> Option<Mismatch> {
+        for i in 0..ops.len() {
+            match (rc.get(i), rs.get(i)) {
+                (Some(c), Some(s)) if c.1 == s.1 => { if c.0 == "panic" { return None; } }
+                (None, None) => return None,
+                (c, s) => return Some(Mismatch { idx: i, op: ops[i].show(), expected: format!("{:?}", s.map(|x| &x.1)), actual: format!("{:?}", c.map(|x| &x.1)),
+                    what: format!("Cursor result differs from SliceReader ({})", how) }),
+            }
+        }
+        None
+    };
+    let rs = run_slice(stream, ops);
+    if let Some(m) = cmp(run_cursor(stream, 0, ops), rs.clone(), "position 0") { return Some(m); }
+    match (stream.len() + ops.len()) % 3 {
+        0 => {
+            let k = 1 + stream.len() % 5;
+            let mut buf: Vec<u8> = (0..k).map(|i| 0xA0 ^ i as u8).collect();
+            buf.extend_from_slice(stream);
+            cmp(run_cursor(&buf, k as u64, ops), rs, "start position inside the buffer")
+        }
+        1 => {
+            let beyond = stream.len() as u64 + 1 + (ops.len() % 3) as u64 * 1000;
+            cmp(run_cursor(stream, beyond, ops), run_slice(&[], ops), "start position beyond the end")
+        }
+        _ => None,
+    }
+}
+
+// ---------------------------------------------------------------- sources that fail with io::Error (robustness)
+#[derive(Clone, Copy, PartialEq, Debug)]
+enum EK { Eof, Int, Oth }
+impl EK {
+    fn kind(self) -> std::io::ErrorKind { match self { EK::Eof => std::io::ErrorKind::UnexpectedEof, EK::Int => std::io::ErrorKind::Interrupted, EK::Oth => std::io::ErrorKind::Other } }
+    fn tag(self) -> &'static str { match self { EK::Eof => "eof", EK::Int => "int", EK::Oth => "oth" } }
+    fn parse(s: &str) -> EK { match s { "eof" => EK::Eof, "int" => EK::Int, "oth" => EK::Oth, _ => panic!("bad error kind {}", s) } }
+    /// what the ByteReader documentation of ReadAdapter promises for this kind (computed without the adapter)
+    fn expected(self) -> String {
+        match self {
+            EK::Eof => format!("err:{:?}", DeserializationError::UnexpectedEOF),
+            k => format!("err:{:?}", DeserializationError::UnknownError(k.kind().to_string())),
+        }
+    }
+}
+/// ChunkRead whose k-th non-empty-buffer read() call fails with the listed error instead (nothing is consumed by a failing call)
+struct ErrRead { inner: ChunkRead, errs: Vec<(usize, EK)>, calls: usize, served: Rc<Cell<usize>>, last: Rc<Cell<Option<EK>>> }
+impl Read for ErrRead {
+    fn read(&mut self, buf: &mut [u8]) -> std::io::Result<usize> {
+        if buf.is_empty() { return Ok(0); }
+        let c = self.calls;
+        self.calls += 1;
+        if let Some((_, k)) = self.errs.iter().find(|(i, _)| *i == c) {
+            self.served.set(self.served.get() + 1);
+            self.last.set(Some(*k));
+            return Err(std::io::Error::new(k.kind(), "injected by the C13 harness"));
+        }
+        self.inner.read(buf)
+    }
+}
+fn show_errs(e: &[(usize, EK)]) -> String { if e.is_empty() { "-".into() } else { e.iter().map(|(i, k)| format!("{}:{}", i, k.tag())).collect::<Vec<_>>().join(",") } }
+fn parse_errs(s: &str) -> Vec<(usize, EK)> {
+    if s == "-" { return vec![]; }
+    s.split(',').map(|t| { let mut it = t.split(':'); (it.next().unwrap().parse().unwrap(), EK::parse(it.next().unwrap())) }).collect()
+}
+/// Robustness oracle for sources with I/O errors (required methods, read_vec and a retrying drain only).
+/// An operation during which the source failed must return exactly the documented error (has_more_bytes: false), must have
+/// asked the source exactly once more, and must not have consumed anything: the reference (real SliceReader on the concatenated
+/// bytes) skips that operation, so every later value and the final drain show that no byte was lost or repeated.  Operations
+/// during which the source did not fail are compared as for healthy sources (check_eor may be optimistic; it may be pessimistic
+/// only after read_u8 hit an I/O error, because `pop` records every failure as end-of-stream).
+/// `served`: (kind, site) of every error served, site = "ref" (&self methods: non_empty_reader_buffer) or "mut".
+fn check_err_case(chunks: &[Vec<u8>], errs: &[(usize, EK)], ops: &[Op], served_log: &mut Vec<(EK, &'static str)>) -> Option<Mismatch> {
+    let stream = concat(chunks);
+    let mut src = ErrRead { inner: ChunkRead::new(chunks), errs: errs.to_vec(), calls: 0, served: Rc::new(Cell::new(0)), last: Rc::new(Cell::new(None)) };
+    let (served, last) = (src.served.clone(), src.last.clone());
+    let mut ad = ReadAdapter::new(&mut src);
+    let mut sr = SliceReader::new(&stream);
+    let mut pop_failed = false;
+    for (i, op) in ops.iter().enumerate() {
+        let mm = |expected: String, actual: String, what: &str| Some(Mismatch { idx: i, op: op.show(), expected, actual, what: what.into() });
+        if *op == Op::Drain {
+            // drain with retry: an I/O error is not the end of the stream
+            let mut got = Vec::new();
+            let mut guard = 0usize;
+            loop {
+                let e0 = served.get();
+                match catch(AssertUnwindSafe(|| ad.read_u8())) {
+                    Err(m) => return mm("no panic".into(), format!("panic:{}", m), "ReadAdapter panics on an I/O error of the source"),
+                    Ok(Ok(b)) => got.push(b),
+                    Ok(Err(e)) => {
+                        if served.get() == e0 { break; }
+                        let k = last.get().unwrap();
+                        served_log.push((k, "mut"));
+                        pop_failed = true;
+                        let a = format!("err:{:?}", e);
+                        if a != k.expected() { return mm(k.expected(), a, "I/O error of the source reported as a different error"); }
+                    }
+                }
+                guard += 1;
+                if guard > stream.len() + errs.len() + 8 { return mm("termination".into(), "drain-overrun".into(), "drain does not terminate"); }
+            }
+            let a = format!("ok:{}", hex_bytes(&got));
+            let s = apply(&mut sr, op, stream.len()).1;
+            if a != s { return mm(s, a, "bytes lost or repeated after an I/O error of the source"); }
+            continue;
+        }
+        let e0 = served.get();
+        let a = match catch(AssertUnwindSafe(|| apply(&mut ad, op, stream.len()))) {
+            Ok(x) => x,
+            Err(m) => return mm("no panic".into(), format!("panic:{}", m), "ReadAdapter panics on an I/O error of the source"),
+        };
+        let n_err = served.get() - e0;
+        if n_err > 0 {
+            let k = last.get().unwrap();
+            let site = if matches!(op, Op::Peek | Op::Eor(_) | Op::More) { "ref" } else { "mut" };
+            served_log.push((k, site));
+            if *op == Op::U8 { pop_failed = true; }
+            if n_err > 1 { return mm("the call returns at the first I/O error".into(), format!("{} failing reads during one call", n_err), "ReadAdapter keeps reading after an I/O error"); }
+            let expected = if *op == Op::More { "f".to_string() } else { k.expected() };
+            if a.1 != expected { return mm(expected, a.1, "I/O error of the source not reported as the documented error"); }
+            continue; // nothing may have been consumed: the reference skips this operation
+        }
+        let s = match catch(AssertUnwindSafe(|| apply(&mut sr, op, stream.len()))) { Ok(x) => x, Err(_) => return None };
+        if a.1 == s.1 { continue; }
+        let is_eor = matches!(op, Op::Eor(_));
+        if is_eor && a.0 == "ok" && s.0 == "err:eof" { continue; }
+        if is_eor && a.0 == "err:eof" && s.0 == "ok" && pop_failed { continue; }
+        return mm(s.1, a.1, "ReadAdapter result differs from SliceReader (source with I/O errors)");
+    }
+    None
+}
+fn gen_err_case(r: &mut Rng) -> (Vec<Vec<u8>>, Vec<(usize, EK)>, Vec<Op>) {
+    let em = r.below(2);
+    let (chunks, ops) = gen_case(r, em, true);
+    let reads = chunks.len() + 2;
+    let mut errs: Vec<(usize, EK)> = Vec::new();
+    for _ in 0..1 + r.below(3) {
+        let at = if r.chance(1, 3) { r.below(2) as usize } else { r.below(reads as u64) as usize };
+        if errs.iter().all(|(i, _)| *i != at) { errs.push((at, *r.pick(&[EK::Eof, EK::Int, EK::Oth]))); }
+    }
+    errs.sort_by_key(|e| e.0);
+    (chunks, errs, ops)
+}
+/// every error kind at every class of call site: first read of a &self method / of a &mut self method, read_exact with a partly
+/// filled local buffer (the two-buffer path), buffer_at_least in the middle of its loop, check_eor and has_more_bytes
+fn err_boundary_cases() -> Vec<(Vec<Vec<u8>>, Vec<(usize, EK)>, Vec<Op>)> {
+    let s40: Vec<u8> = (0..40u8).collect();
+    let p = |s: &str| parse_ops(s);
+    let mut v = Vec::new();
+    for k in [EK::Eof, EK::Int, EK::Oth] {
+        for first in ["pk", "u8", "more", "eor5", "rs4", "ra4", "rv3"] {
+            v.push((vec![s40.clone()], vec![(0, k)], p(&format!("{},pk,u8,eor1,more,drain", first))));
+        }
+        v.push((split(&s40, &[3, 37]), vec![(1, k)], p("rs2,ra4,ra4,drain")));          // partial local buffer, then the reader fails
+        v.push((split(&s40, &[3, 3, 3, 31]), vec![(2, k)], p("rs8,rs8,drain")));        // buffer_at_least: second refill fails
+        v.push((split(&s40, &[3, 37]), vec![(1, k)], p("rs3,u8,u8,eor2,eor30,drain")));  // pop fails: later check_eor may be pessimistic
+        v.push((split(&s40, &[2, 38]), vec![(1, k), (2, k)], p("rs2,pk,pk,pk,more,more,eor1,eor1,drain")));
+        v.push((vec![s40.clone()], vec![(1, k)], p("drain,more,pk,u8,eor0,eor1")));    // the failure replaces the end-of-stream read
+    }
+    v
 }
 
 // ---------------------------------------------------------------- shrinking (delta debugging)
@@ -538,12 +725,29 @@ fn boundary_cases() -> Vec<(Vec<Vec<u8>>, Vec<Op>)> {
     for k in [1usize, 15, 16, 17, 255, 256, 257] {
         v.push((split(&s600, &[k, 600 - k]), p("u8,rs16,rs17,ra16,u128,eor600,drain")));
     }
+    // coverage round: the end-of-data queries at EVERY position of the stream and after EOF
+    for (len, sizes) in [(0usize, vec![]), (1, vec![1]), (2, vec![1, 1]), (5, vec![5]), (5, vec![2, 3]), (17, vec![16, 1]), (17, vec![1; 17]), (40, vec![40]), (300, vec![255, 2, 43])] {
+        v.push((split(&s600[..len], &sizes), probe_ops(len)));
+    }
     v
+}
+
+/// at every position: has_more_bytes, check_eor(0 / 1 / exactly the rest / one more than the rest), peek, empty reads, then one
+/// byte is consumed; after the end of the data every operation once more
+fn probe_ops(len: usize) -> Vec<Op> {
+    let mut ops = Vec::new();
+    for pos in 0..len {
+        let rem = len - pos;
+        ops.extend([Op::More, Op::Eor(0), Op::Eor(1), Op::Eor(rem), Op::Eor(rem + 1), Op::Peek, Op::Slice(0), Op::Array(0), Op::U8]);
+    }
+    ops.extend(parse_ops("more,eor0,eor1,pk,u8,more,eor0,eor1,rs0,rs1,ra0,ra1,rv0,rv1,str0,str1,bool,u16,u32,u64,u128,usz,many0x0,many0x1,many5x1,pk,u8,more,eor0,eor1,drain,more,eor0,eor1"));
+    ops
 }
 
 /// input distribution of the correspondence stream (reported in the evidence)
 #[derive(Default)]
 struct Stats { cases: usize, ops: usize, by_op: std::collections::BTreeMap<String, usize>, by_res: std::collections::BTreeMap<String, usize>,
+    by_reader: std::collections::BTreeMap<String, usize>, cursor_cases: usize, cursor_offset_cases: usize, cursor_beyond_end_cases: usize,
     sticky: usize, early_empty: usize, one_byte_chunks: usize, single_chunk: usize, chunk_gt_256: usize, straddle_256: usize, stream_ge_256: usize, max_ops: usize }
 impl Stats {
     fn add(&mut self, chunks: &[Vec<u8>], ops: &[Op], res: &[Res]) {
@@ -567,10 +771,20 @@ impl Stats {
         if chunks.iter().any(|c| c.len() > 256) { self.chunk_gt_256 += 1 }
         if chunks.iter().any(|c| c.len() >= 250 && c.len() <= 262) { self.straddle_256 += 1 }
     }
+    /// reader x operation x result class of the lines that tie a reader model to its implementation
+    fn add_reader(&mut self, reader: &str, ops: &[Op], res: &[Res]) {
+        for (o, r) in ops.iter().zip(res.iter()) {
+            let k: String = o.show().chars().take_while(|c| !c.is_ascii_digit()).collect();
+            let k = if matches!(o, Op::U8 | Op::U16 | Op::U32 | Op::U64 | Op::U128) { o.show() } else { k };
+            let c = if r.0.starts_with("ok") { "ok" } else if r.0 == "err:eof" { "eof" } else { r.0.as_str() };
+            *self.by_reader.entry(format!("{}|{}|{}", reader, k, c)).or_insert(0) += 1;
+        }
+    }
     fn json(&self) -> String {
         let m = |m: &std::collections::BTreeMap<String, usize>| m.iter().map(|(k, v)| format!("{}:{}", jstr(k), v)).collect::<Vec<_>>().join(",");
-        format!("{{\"cases\":{},\"ops\":{},\"max_ops_per_case\":{},\"by_op\":{{{}}},\"by_result\":{{{}}},\"sticky_eof_sources\":{},\"sources_with_empty_read_before_eof\":{},\"all_chunks_1_byte\":{},\"single_chunk\":{},\"some_chunk_gt_256\":{},\"some_chunk_250_to_262\":{},\"stream_ge_256_bytes\":{}}}",
-            self.cases, self.ops, self.max_ops, m(&self.by_op), m(&self.by_res), self.sticky, self.early_empty, self.one_byte_chunks, self.single_chunk, self.chunk_gt_256, self.straddle_256, self.stream_ge_256)
+        format!("{{\"cases\":{},\"ops\":{},\"max_ops_per_case\":{},\"by_op\":{{{}}},\"by_result\":{{{}}},\"sticky_eof_sources\":{},\"sources_with_empty_read_before_eof\":{},\"all_chunks_1_byte\":{},\"single_chunk\":{},\"some_chunk_gt_256\":{},\"some_chunk_250_to_262\":{},\"stream_ge_256_bytes\":{},\"cursor_cases\":{},\"cursor_offset_cases\":{},\"cursor_beyond_end_cases\":{},\"by_reader_op_result\":{{{}}}}}",
+            self.cases, self.ops, self.max_ops, m(&self.by_op), m(&self.by_res), self.sticky, self.early_empty, self.one_byte_chunks, self.single_chunk, self.chunk_gt_256, self.straddle_256, self.stream_ge_256,
+            self.cursor_cases, self.cursor_offset_cases, self.cursor_beyond_end_cases, m(&self.by_reader))
     }
 }
 
@@ -587,9 +801,18 @@ fn main() {
             let rs = run_slice(&concat(&chunks), &ops);
             println!("adapter: {}", ra.iter().map(|x| x.1.clone()).collect::<Vec<_>>().join(";"));
             println!("slice:   {}", rs.iter().map(|x| x.1.clone()).collect::<Vec<_>>().join(";"));
+            println!("cursor:  {}", run_cursor(&concat(&chunks), 0, &ops).iter().map(|x| x.1.clone()).collect::<Vec<_>>().join(";"));
             match check_case(&chunks, &ops) {
                 Some(m) => println!("MISMATCH {:?}", m),
                 None => println!("agree"),
+            }
+        }
+        "replay-err" => {
+            let (chunks, errs, ops) = (parse_chunks(&args[2]), parse_errs(&args[3]), parse_ops(&args[4]));
+            let mut log = Vec::new();
+            match check_err_case(&chunks, &errs, &ops, &mut log) {
+                Some(m) => println!("MISMATCH {:?}", m),
+                None => println!("agree (errors served: {:?})", log),
             }
         }
         "corr" => {
@@ -597,6 +820,7 @@ fn main() {
             let n: usize = args.get(3).and_then(|s| s.parse().ok()).unwrap_or(1000);
             let mut r = Rng::new(seed);
             let mut cases = boundary_cases();
+            let n_boundary = cases.len();
             while cases.len() < n {
                 let empties = match r.below(10) { 0..=3 => 0, 4..=5 => 1, _ => 2 };
                 cases.push(gen_case(&mut r, empties, false));
@@ -605,11 +829,27 @@ fn main() {
             for (i, (chunks, ops)) in cases.iter().take(n.max(1)).enumerate() {
                 let (ra, _, _) = run_adapter(chunks, ops);
                 st.add(chunks, ops, &ra);
+                st.add_reader("adapter", ops, &ra);
                 println!("{} {} {} => {}", prof, show_chunks(chunks), show_ops(ops), ra.iter().map(|x| x.0.clone()).collect::<Vec<_>>().join(";"));
                 // every fourth case also ties the SliceReader model to the real SliceReader
                 if i % 4 == 0 {
                     let rs = run_slice(&concat(chunks), ops);
+                    st.add_reader("slice", ops, &rs);
                     println!("S {} {} => {}", show_chunks(chunks), show_ops(ops), rs.iter().map(|x| x.0.clone()).collect::<Vec<_>>().join(";"));
+                }
+                // every fourth case (and all the fixed boundary cases) ties the Cursor model to the real std::io::Cursor: from
+                // position 0, and for every other one of them from a position inside / one beyond the end of the buffer
+                if i % 4 == 2 || i < n_boundary {
+                    let stream = concat(chunks);
+                    let mut positions = vec![0u64];
+                    if i % 8 == 2 || i < n_boundary { positions.push(1 + r.below(stream.len() as u64 + 1)); positions.push(stream.len() as u64 + 1 + r.below(3) * 1000); }
+                    for pos in positions {
+                        let rc = run_cursor(&stream, pos, ops);
+                        st.add_reader("cursor", ops, &rc);
+                        st.cursor_cases += 1;
+                        if pos > stream.len() as u64 { st.cursor_beyond_end_cases += 1 } else if pos > 0 { st.cursor_offset_cases += 1 }
+                        println!("C{} {} {} => {}", pos, show_chunks(chunks), show_ops(ops), rc.iter().map(|x| x.0.clone()).collect::<Vec<_>>().join(";"));
+                    }
                 }
             }
             println!("#stats {}", st.json());
@@ -644,8 +884,29 @@ fn main() {
                         jstr(&show_ops(&o)), jstr(&format!("#{} {}", m.idx, m.op)), jstr(&format!("{} ops over {} chunks", ops.len(), chunks.len())));
                 }
             }
-            println!("evaluations={} failures={} ops={} sticky_sources={} early_empty_sources={}", n.max(1).min(cases.len()), fails, n_ops, n_sticky, n_early);
+            // robustness: sources whose read() fails with io::Error (outside the property's "any byte stream")
+            let mut ecases = err_boundary_cases();
+            let n_err = ecases.len().max(n / 6);
+            while ecases.len() < n_err { ecases.push(gen_err_case(&mut r)); }
+            let mut log: Vec<(EK, &'static str)> = Vec::new();
+            let mut reported = 0usize;
+            for (chunks, errs, ops) in ecases.iter() {
+                if let Some(m) = check_err_case(chunks, errs, ops, &mut log) {
+                    fails += 1;
+                    if reported >= 6 { continue; }
+                    reported += 1;
+                    let o: Vec<Op> = ops[..=m.idx.min(ops.len() - 1)].to_vec();
+                    println!("{{\"what\":{},\"input\":{},\"expected\":{},\"actual\":{},\"minimal_ops\":{},\"failing_op\":{}}}",
+                        jstr(&m.what), jstr(&format!("E {} {} {}", show_chunks(chunks), show_errs(errs), show_ops(&o))), jstr(&m.expected), jstr(&m.actual),
+                        jstr(&show_ops(&o)), jstr(&format!("#{} {}", m.idx, m.op)));
+                }
+            }
+            let mut io: std::collections::BTreeMap<String, usize> = std::collections::BTreeMap::new();
+            for (k, site) in log.iter() { *io.entry(format!("{}|{}", k.tag(), site)).or_insert(0) += 1; }
+            println!("#io {{\"sources\":{},\"errors_served\":{{{}}}}}", ecases.len(), io.iter().map(|(k, v)| format!("{}:{}", jstr(k), v)).collect::<Vec<_>>().join(","));
+            println!("evaluations={} failures={} ops={} sticky_sources={} early_empty_sources={} io_error_sources={} io_errors_served={}",
+                n.max(1).min(cases.len()) + ecases.len(), fails, n_ops, n_sticky, n_early, ecases.len(), log.len());
         }
-        _ => { eprintln!("usage: c13 corr|falsify <seed> <n> | replay <chunks> <ops>"); std::process::exit(2); }
+        _ => { eprintln!("usage: c13 corr|falsify <seed> <n> | replay <chunks> <ops> | replay-err <chunks> <errs> <ops>"); std::process::exit(2); }
     }
 }
